@@ -1,14 +1,14 @@
 """C06 — mux and demux are inverse; layers stay frame-aligned.
 
 Direct oracle on the real binary: dual-layer streams and (BL, EL) pairs from vlib/hevcgen.py;
-chains demux -> mux -> demux, every file compared with the reference interleave / split of vlib/cliref.py;
+chains demux -> mux -> demux, every file compared with the reference interleave / split of vlib/hevcref.py;
 EL longer than BL must end with an error and an output trimmed to the BL length; EL shorter: BL conserved."""
 import os
 
 from . import common
 from . import hevcgen as H
-from . import cliref as F
-from . import clirun as R
+from . import hevcref as F
+from . import hevcrun as R
 
 HOOK = "DOVI_TOOL_VERIF_CHUNK_SIZE"
 HOOK_EL = "DOVI_TOOL_VERIF_EL_CHUNK_SIZE"
@@ -56,7 +56,8 @@ def run_job(job):
         src = os.path.join(d, "full.hevc")
         with open(src, "wb") as fh:
             fh.write(job["full"])
-        res = R.run_tool(["demux", src, "-b", bl_path, "-e", el_path], env=env, cwd=d)
+        env1 = env if "chunk1" not in o else ({HOOK: str(o["chunk1"])} if o["chunk1"] else {})
+        res = R.run_tool(["demux", src, "-b", bl_path, "-e", el_path], env=env1, cwd=d)
         out["cmds"].append(res.cmdline())
         if res.rc != 0:
             return fail("demux", "exit status 0", res.brief())
@@ -164,9 +165,10 @@ def run(ctx):
     uni = F.universal_rpus(conv, [r for r, _ in pool])
     chunks = [64, 257, 4096, None]
     jobs = []
-    n_chain = 70 if quick else 1500
-    n_pair = 30 if quick else 500
-    n_len = 30 if quick else 400
+    n_chain = 260 if quick else 3000
+    n_pair = 100 if quick else 1000
+    n_len = 100 if quick else 1000
+    n_big = 3 if quick else 30
 
     def mk_stream(r, nfr, **kw):
         pb = r.choice([4, 8, 8, 16])
@@ -264,6 +266,34 @@ def run(ctx):
         job = finish_job(r, st, o, bl_aus, el_frames, job)
         if job is not None:
             jobs.append(job)
+    # ---- layers larger than the real 100000-byte chunk: BL read with the real chunk size (file) or any size (stdin)
+    for i in range(n_big):
+        r = rng.fork("big%d" % i)
+        st, so = mk_stream(r, 8, sc="four", aud="canonical", ssei_pos="before_el", eos_pos="end")
+        H.inflate(st, r, 6, 20000, 110000)
+        o = mux_opts(r)
+        o["kind"] = "chain"
+        o["no_add_aud"] = False
+        o["eos_before_el"] = False
+        o["discard"] = False
+        o.pop("mode", None)
+        if not o["stdin"]:
+            o["chunk"] = r.choice([None, 1000, 20000])
+        o["chunk2"] = r.choice([None, 3125])
+        o["chunk1"] = r.choice([None, 1000, 20000])    # divisors of the file reader's 100000-byte buffer only
+        full = st.render()
+        bl_aus = [(s_, tuples(nl)) for s_, nl in H.bl_aus_of(st)]
+        el_frames = [tuples(fr) for fr in H.el_frames_of(st)]
+        job = {"full": full, "sid": 3000 + i, "st": st, "so": so, "big": True}
+        job["exp_split"] = F.ref_general(F.items_of(st), "demux", conv)
+        job = finish_job(r, st, o, bl_aus, el_frames, job)
+        if job is None:
+            continue
+        assert [(t, d) for t, d, _ in job["exp_mux"]] == st.seq()
+        job["identity"] = True
+        if o.get("start_code") in (None, "four"):
+            job["identity_bytes"] = full
+        jobs.append(job)
     # ---- EL longer / shorter than BL
     for i in range(n_len):
         r = rng.fork("len%d" % i)
@@ -331,6 +361,8 @@ def run(ctx):
                 ctx.count("identity-claim nal-seq")
             if "bytes" in o_["steps"]:
                 ctx.count("identity-claim bytes")
+            if j.get("big"):
+                ctx.count("layers larger than 100000 bytes (bytes %d)" % (len(j["full"]) // 100000 * 100000))
             if j.get("bl_has_rpu"):
                 ctx.count("bl-carries-own-rpus")
             if o["kind"] in ("el_longer", "el_shorter"):
@@ -338,7 +370,7 @@ def run(ctx):
             ctx.count("outcome=" + ("FAIL" if o_["fail"] else "ok"))
             if not o_["fail"] and len(st.aus) >= 2:
                 ctx.nontriv("%d/%s" % (j["sid"], _name(o)))
-            if k % 13 == 0:
+            if k % 53 == 0:
                 ctx.sample("stream#%d (%d frames): %s -> %s" % (j["sid"], len(st.aus), " && ".join(c.replace(work.dir, "$W") for c in o_["cmds"]),
                                                                "+".join(o_["steps"])))
             if o_["fail"]:
